@@ -310,3 +310,102 @@ Proof.
     rewrite ?append_assoc. cbn. rewrite ?append_assoc. cbn. split; reflexivity.
   - cbn [identifier_of]. rewrite ?append_assoc. cbn. rewrite ?append_assoc. cbn. split; reflexivity.
 Qed.
+
+(* ================================================================ shape of a parsed reference *)
+Lemma startswith_hasc s : startswith s "/" = true -> hasc "/" s = true.
+Proof.
+  destruct s as [|c s]; [discriminate|]. unfold startswith. cbn [prefixb hasc]. intros H.
+  apply andb_true_iff in H as [H _]. rewrite Ascii.eqb_sym, H. reflexivity.
+Qed.
+
+Lemma os_split_abs a : startswith a "/" = true -> startswith (fst (os_split a)) "/" = true.
+Proof.
+  destruct a as [|c a]; [discriminate|]. unfold startswith. cbn [prefixb]. intros H.
+  apply andb_true_iff in H as [H _]. apply Ascii.eqb_eq in H. subst c.
+  unfold os_split. cbn [fst head_raw]. change (is_slash "/") with true. cbv iota.
+  destruct (hasc "/" a); [|reflexivity].
+  cbn [all_chars]. change (is_slash "/") with true. cbn [andb].
+  destruct (all_chars is_slash (head_raw a)) eqn:E; [reflexivity|].
+  cbn [rstrip_slash]. change (is_slash "/") with true. cbn [andb]. rewrite E. reflexivity.
+Qed.
+
+Lemma parse_producer_job c x idx si job has :
+  parse_producer x idx = (si, job, has) -> hasc c x = false -> hasc c job = false.
+Proof.
+  unfold parse_producer. destruct (startswith x "/"); [intros E; inversion E; subst; auto|].
+  destruct (split1 "." x) as [[st j]|] eqn:S; [|intros E; inversion E; subst; auto].
+  destruct (stage_match st); intros E; inversion E; subst; auto.
+  intros H. apply split1_some in S as [-> _]. rewrite hasc_app in H. apply orb_false_iff in H as [_ H].
+  cbn [hasc] in H. apply orb_false_iff in H as [_ H]. exact H.
+Qed.
+
+Lemma parse_full_shape r idx ad sf si prod file meth :
+  parse_full r idx ad sf = Some (si, prod, file, meth) -> hasc "/" prod = false ->
+  hasc ":" prod = false /\ hasc ":" meth = false /\ (forall f, file = Some f -> hasc ":" f = false).
+Proof.
+  unfold parse_full, parse_data, split_colon. intros H Hs.
+  destruct (split1 ":" r) as [[a b]|] eqn:S; [|discriminate].
+  destruct (hasc ":" b) eqn:Hb; [discriminate|].
+  apply split1_some in S as [_ Ha].
+  destruct (startswith a "/") eqn:A.
+  - destruct (os_split a) as [h t] eqn:O.
+    pose proof (os_split_abs a A) as Hh. rewrite O in Hh. cbn [fst] in Hh.
+    unfold parse_producer in H. rewrite Hh in H. cbv beta iota zeta in H. inversion H; subst.
+    apply startswith_hasc in Hh. congruence.
+  - destruct (split1 "/" a) as [[t0 rest]|] eqn:T.
+    + pose proof (split1_some _ _ _ _ T) as [Ea Ht0].
+      destruct (in_strs t0 Special) eqn:Sp.
+      * rewrite Ea in H. rewrite (parse_producer_special _ _ _ Sp) in H. cbv beta iota zeta in H.
+        inversion H; subst prod.
+        rewrite hasc_app in Hs. cbn [hasc] in Hs. rewrite Ascii.eqb_refl in Hs. cbn [orb] in Hs.
+        rewrite orb_true_r in Hs. discriminate.
+      * rewrite Ea, hasc_app in Ha. apply orb_false_iff in Ha as [Ha1 Ha2]. cbn [hasc] in Ha2.
+        apply orb_false_iff in Ha2 as [_ Ha2]. clear Ea.
+        destruct (parse_producer t0 idx) as [[si0 job] has] eqn:P. inversion H; subst.
+        split; [eapply parse_producer_job; eauto|]. split; [exact Hb|]. intros f E; inversion E; subst; exact Ha2.
+    + destruct (parse_producer a idx) as [[si0 job] has] eqn:P. inversion H; subst.
+      split; [eapply parse_producer_job; eauto|]. split; [exact Hb|]. intros f E; discriminate.
+Qed.
+
+(* ================================================================ expansion is idempotent *)
+Definition known_noslash (known : known_t) : Prop := forall i p, known_in known i p = true -> hasc "/" p = false.
+
+Theorem expand_idempotent r r' ctx known tlf :
+  known_noslash known ->
+  expand_potential r ctx known tlf false = Some r' -> expand_potential r' ctx known tlf false = Some r'.
+Proof.
+  intros K. unfold expand_potential at 1.
+  destruct (parse_full r None [] []) as [[[[si prod] file] meth]|] eqn:E; [|discriminate].
+  destruct (is_var_reference prod) eqn:V.
+  { intros H; inversion H; subst r'. unfold expand_potential. rewrite E, V. reflexivity. }
+  match goal with |- Some (if ?rc then _ else _) = _ -> _ => destruct rc eqn:RC end.
+  - assert (Hs : hasc "/" prod = false).
+    { cbn [orb] in RC. apply orb_true_iff in RC as [RC|RC]; [|exact (K _ _ RC)].
+      destruct tlf as [[|x l]|]; try discriminate. apply negb_true_iff in RC.
+      apply orb_false_iff in RC as [_ RC]. exact RC. }
+    destruct (parse_full_shape _ _ _ _ _ _ _ _ E Hs) as (Hp & Hm & Hf).
+    remember (match si with Some n => n | None => ctx end) as mi eqn:Emi. clear Emi.
+    assert (W : wf_component (Some mi, prod, file, meth) = true).
+    { unfold wf_component, nocolon. rewrite Hp, Hm, Hs. destruct file as [f|]; [rewrite (Hf f eq_refl)|]; reflexivity. }
+    intros H. assert (R : r' = compile_ref prod file meth (Some mi)) by congruence. clear H. subst r'.
+    unfold expand_potential.
+    rewrite (parse_full_print _ _ _ _ None [] [] W).
+    apply orb_false_iff in V as [V1 V2]. unfold is_var_reference. rewrite V1, V2. cbn [orb]. cbv iota.
+    match goal with |- Some (if ?rc then _ else _) = _ => destruct rc end; reflexivity.
+  - intros H; inversion H; subst r'. unfold expand_potential. rewrite E, V, RC. reflexivity.
+Qed.
+
+(* expand_component_references on a list *)
+Lemma mapM_idem {A} (f : A -> option A) l l' :
+  (forall x y, f x = Some y -> f y = Some y) -> mapM f l = Some l' -> mapM f l' = Some l'.
+Proof.
+  intros F. revert l'. induction l as [|x l IH]; cbn; intros l' H.
+  - inversion H; reflexivity.
+  - destruct (f x) eqn:E; [|discriminate]. destruct (mapM f l) eqn:M; [|discriminate]. inversion H; subst.
+    cbn. rewrite (F _ _ E), (IH _ eq_refl). reflexivity.
+Qed.
+
+Theorem expand_refs_idempotent refs refs' ctx known ad tlf :
+  known_noslash known ->
+  expand_refs refs ctx known ad tlf = Some refs' -> expand_refs refs' ctx known ad tlf = Some refs'.
+Proof. intros K. unfold expand_refs. apply mapM_idem. intros x y. apply expand_idempotent. exact K. Qed.
